@@ -256,3 +256,72 @@ def corpus(C):
         # a plain writer overwrites
         mk("target", "bare", "out.cnn", [], ["out.cnn"], 2),
     ]
+
+
+# ---------------------------------------------------------------------------------------------
+# more alias_probe cells (the op itself, its Lean handler and its judge are round 4's: harness/props/_c10ext.py)
+
+
+def extra_probes():
+    """round 5: alias_probe cells for the public pipeline steps / array methods of the alias table's entry list that
+    round 4 did not call (same protocol: fresh arguments, which named arguments changed)"""
+    from cnvlib import target, antitarget, metrics, export, commands
+
+    def P(fn, tag, b):
+        return (fn, tag, b)
+
+    def fn2(f, names):
+        def b(e):
+            named = {k: e[v] for k, v in names.items()}
+            return named, lambda: f(e)
+        return b
+
+    def meth(name, argf=lambda e: ((), {}), key="cnr", extra=None):
+        def b(e):
+            a, k = argf(e)
+            named = {"self": e[key]}
+            for n, v in (extra or {}).items():
+                named[n] = e[v]
+            return named, lambda: getattr(e[key], name)(*a, **k)
+        return b
+
+    return [
+        P("cnvlib.target.do_target", "", fn2(lambda e: target.do_target(e["bait"], do_short_names=True, do_split=True, avg_size=150),
+                                              {"bait_arr": "bait"})),
+        P("cnvlib.antitarget.do_antitarget", "", fn2(lambda e: antitarget.do_antitarget(e["bait"], e["acc"], 5000, 500),
+                                                      {"targets": "bait", "access": "acc"})),
+        P("cnvlib.metrics.do_metrics", "", fn2(lambda e: metrics.do_metrics(e["cnr"], e["seg"]), {"cnarrs": "cnr", "segments": "seg"})),
+        P("cnvlib.metrics.do_metrics", "lists", fn2(lambda e: metrics.do_metrics(e["CNRS"], e["SEGS"], skip_low=True),
+                                                     {"cnarrs": "CNRS", "segments": "SEGS"})),
+        P("cnvlib.commands.do_sex", "", fn2(lambda e: commands.do_sex(e["CNRS"], False, None), {"cnarrs": "CNRS"})),
+        P("cnvlib.export.export_theta", "", fn2(lambda e: export.export_theta(e["seg"], e["cnr"]), {"tumor_segs": "seg", "normal_cn": "cnr"})),
+        P("cnvlib.export.export_nexus_basic", "", fn2(lambda e: export.export_nexus_basic(e["cnr"]), {"cnarr": "cnr"})),
+        P("cnvlib.export.export_nexus_ogt", "mw", fn2(lambda e: export.export_nexus_ogt(e["cnr"], e["vcf"], 0.45), {"cnarr": "cnr", "varr": "vcf"})),
+        P("skgenome.gary.GenomicArray.subtract", "", meth("subtract", lambda e: ((e["regions"],), {}), extra={"other": "regions"})),
+        P("skgenome.gary.GenomicArray.intersection", "", meth("intersection", lambda e: ((e["regions"],), {}), extra={"other": "regions"})),
+        P("skgenome.gary.GenomicArray.subdivide", "", meth("subdivide", lambda e: ((200,), {}), key="regions")),
+        P("skgenome.gary.GenomicArray.resize_ranges", "", meth("resize_ranges", lambda e: ((50,), {}), key="regions")),
+        P("skgenome.gary.GenomicArray.keep_columns", "", meth("keep_columns", lambda e: ((["chromosome", "start", "end", "gene", "log2"],), {}))),
+        P("skgenome.gary.GenomicArray.drop_extra_columns", "", meth("drop_extra_columns")),
+        P("skgenome.gary.GenomicArray.into_ranges", "", meth("into_ranges", lambda e: ((e["regions"], "log2", 0.0), {}), extra={"other": "regions"})),
+        P("cnvlib.cnary.CopyNumArray.residuals", "", meth("residuals", lambda e: ((e["seg"],), {}), extra={"segments": "seg"})),
+        P("cnvlib.cnary.CopyNumArray.guess_xx", "", meth("guess_xx")),
+        P("cnvlib.cnary.CopyNumArray.expect_flat_log2", "", meth("expect_flat_log2")),
+        P("skgenome.gary.GenomicArray.concat", "", meth("concat", lambda e: (([e["cnr2"]],), {}), extra={"others": "cnr2"})),
+    ]
+
+
+def _install_extra_probes():
+    """append the round-5 cells to the probe list of _c10ext (its generator and index iterate `probes()`)"""
+    from . import _c10ext
+    if getattr(_c10ext.probes, "_round5", False):
+        return
+    orig = _c10ext.probes
+
+    def probes():
+        return orig() + extra_probes()
+    probes._round5 = True
+    _c10ext.probes = probes
+
+
+_install_extra_probes()
